@@ -8,7 +8,6 @@ package core
 // here) and natively (real socketpairs, real poller object) for replay.
 
 import (
-	"context"
 	"errors"
 
 	"github.com/petar/GoLLRB/llrb"
@@ -46,7 +45,7 @@ type VerifWorld struct {
 var verifErrDial = errors.New("verif: dial refused")
 
 func VerifDefaultOptions() *Options {
-	return &Options{ReadBufferCap: 256, WriteBufferCap: 256, RedisMsgMaxLength: 6 * 1024 * 1024, RedisServerConnections: 1, RedisConnectionTimeout: 200}
+	return &Options{ReadBufferCap: 256, WriteBufferCap: 256, RedisMsgMaxLength: 6 * 1024 * 1024, RedisServerConnections: 1, RedisConnectionTimeout: 200, RedisPreconnect: true}
 }
 
 func VerifNewWorld(h EventHandler, opts *Options) *VerifWorld {
@@ -77,8 +76,10 @@ func verifSocketpair() (int, int) {
 // AddPool installs a connection pool for a backend address; its Dial builds a server conn over a
 // socketpair and runs the real eventloop.open (so OnSOpened and the AUTH/READONLY handshake are real).
 func (w *VerifWorld) AddPool(addr string, isSlave bool) *Pool {
-	ctx, cancel := context.WithCancel(context.Background())
-	p := &Pool{Addr: addr, isSlave: isSlave, maxActive: w.Eng.opts.RedisServerConnections, ctx: ctx, cancel: cancel}
+	// the pool is created the production way (engine.newPool: options copied into the pool, monitor
+	// goroutine started - it first acts after 5 s, long after a replay has ended); only the dial
+	// function is replaced
+	p := w.Eng.newPool(addr, isSlave)
 	p.Dial = func(a string, slave bool) (SConn, error) {
 		w.Dials++
 		if w.DialFail[a] {
@@ -179,6 +180,16 @@ func (w *VerifWorld) Feed(vc *VerifConn, data []byte) {
 	w.Readable(vc)
 }
 
+// FeedAll = Send + as many readable events as the event loop needs to take all of it in (the loop
+// reads at most one buffer-full per event; epoll is level-triggered and keeps reporting the descriptor).
+func (w *VerifWorld) FeedAll(vc *VerifConn, data []byte) {
+	w.Send(vc, data)
+	per := len(w.El.buffer)
+	for n := 0; n < len(data); n += per {
+		w.Readable(vc)
+	}
+}
+
 // Sent drains what the proxy wrote on the connection and returns the whole log so far.
 func (w *VerifWorld) Sent(vc *VerifConn) []byte {
 	var buf [512]byte
@@ -218,6 +229,17 @@ func (w *VerifWorld) HangUp(vc *VerifConn) {
 	// this connection again
 	vc.Peer = -1
 	w.Readable(vc)
+}
+
+// CloseQuiet closes the harness side WITHOUT a readable event: the proxy finds out when it next writes
+// to the connection (EPIPE / ECONNRESET) or when the pending readable event is finally delivered.
+func (w *VerifWorld) CloseQuiet(vc *VerifConn) {
+	if vc.Peer < 0 {
+		return
+	}
+	w.Sent(vc)
+	_ = unix.Close(vc.Peer)
+	vc.Peer = -1
 }
 
 // RunTasks lets the poller run its queued asynchronous tasks (write signals, async writes, closes).
@@ -336,11 +358,16 @@ func (w *VerifWorld) Probe(addr string) {
 // Retopo installs a new topology the way the refresh loop does after a changed CLUSTER NODES reply
 // (the real setServer / setReplicaset, then serverChanged): masters[i] serves ranges[i]. The next
 // ticker run closes the pools of nodes that are gone and rebuilds the slot table.
-func (w *VerifWorld) Retopo(masters []string, ranges [][2]int) {
+func (w *VerifWorld) Retopo(masters []string, ranges [][2]int, replicas ...[]string) {
 	var nodes []*ClusterNode
 	for i, m := range masters {
 		nodes = append(nodes, &ClusterNode{Name: m, Addr: m, Role: Master, Connected: true,
 			Slots: []Slots{{Start: int32(ranges[i][0]), End: int32(ranges[i][1])}}})
+	}
+	for i, rs := range replicas {
+		for _, r := range rs {
+			nodes = append(nodes, &ClusterNode{Name: r, Addr: r, Role: Slave, MasterId: masters[i], Connected: true})
+		}
 	}
 	cn := &EngineGlobal.ClusterNodes
 	cn.setServer(nodes)
